@@ -113,6 +113,11 @@ BUILTIN = [(65, 'i8'), (96, 'u16'), (127, 'i8'), (128, 'u8'), (127, 'i64'), (128
            (32, 'i32'), (20, 'i8'), (8, 'u8'), (7, 'i8'), (63, 'i16'), (64, 'i16'), (100, 'i32'), (100, 'u32')]
 
 
+import os as _os, importlib.util as _ilu
+_s = _ilu.spec_from_file_location('C10F', _os.path.join(_os.path.dirname(__file__), 'C10F.py'))
+C10F = _ilu.module_from_spec(_s); _s.loader.exec_module(C10F)
+
+
 def tus(tier, seed):
     hdr = '#include "%s"\n' % __file__.replace('.py', '.h')
     res = []
@@ -137,6 +142,7 @@ def tus(tier, seed):
         body += '  storage_builtin<wide_integer<%d, %s>>();\n' % (d, CT[t])
     body += '}\n'
     res.append(dict(name='C10_storage', src=body, compiler='g++'))
+    res += C10F.tus_float(tier, seed)
     return res
 
 
@@ -146,7 +152,7 @@ RULE = ("per compiled wide_integer<Digits, Narrowest>: corner values (0, 1, -1, 
         "1..n limbs with top limb ~0 / 1 / 1000.. / 0111.. against numerators q*b, q*b-1, q*b+r and add-back shapes; shift counts "
         "{0,1,w-1,w,w+1,N-1,...,>=N,<0}; >= 129-limb instantiations (8-bit limbs, 1056..2048 bits: Karatsuba) get dense "
         "operands (random limbs, all-ones, 0xFE../0xF0../0xCC.. runs over the width, half, three quarters, equal halves) "
-        "cross-multiplied, in the quick tier too (2048 bits, 1568 bits = odd level, one width by seed); non-trivial = the property constrains the result (divisor non-zero, 0 <= shift < N)")
+        "cross-multiplied, in the quick tier too (2048 bits, 1568 bits = odd level, one width by seed); non-trivial = the property constrains the result (divisor non-zero, 0 <= shift < N); " + C10F.RULE_FLOAT)
 TRUSTED = ["harness reads limbs through uintwide_t::crepresentation() and writes them through representation()",
            "Karatsuba multiplication (>= 129 limbs) is transcribed with its in-place memory (Cnl.Wide.kara), compared limb for "
            "limb and proved exact for all widths/limb counts/initial array contents (karatsuba_correct); the model follows "
@@ -156,4 +162,4 @@ ASSUMPTIONS = ["N is the storage width (limb width x limb count), e.g. wide_inte
                "numeric_limits<wide_integer>::min() returns 1 (library-wide convention, also elastic_integer): modelled, not constrained",
                "cnl::to_chars on an unsigned multi-limb wide_integer does not compile (no mixed-signedness operator-): only signed instances are observed through to_chars, both through operator<<",
                "division by zero returns numeric_limits::max() (quotient) / 0 (remainder) without trapping, shifts by counts outside [0, N) fill with zeros or the sign: modelled, not constrained by the property",
-               "conversion to/from floating point is not covered by this check"]
+               ] + (C10F.ASSUMPTIONS_FLOAT if isinstance(C10F.ASSUMPTIONS_FLOAT, list) else [C10F.ASSUMPTIONS_FLOAT])
